@@ -129,14 +129,18 @@ def harness(g, chart, level, canary=False):
     def hook(kind, ident):
         if kind == 'action':
             if ident == 0:    # a notify followed by a send in one fragment: their order must be kept
-                return "A(0)\nnotify('note', k=0)\nsend('b', k=0)\nnotify('note', k=9)"
+                return "A(0)\nnotify('note', k=0)\nsend('b', k=0, res=LOCK())\nnotify('note', k=9)"
             return "A(%d)\nnotify('note', k=%d)" % (ident, ident)
         return None
-    mon = Inst(g, chart, 'id', code_hook=hook, cache_key=('c10',), tag='mon', extra_context={'CS': mkCS('mon'), 'cs': []})
+    import threading as _thr
+    lock = _thr.Lock()        # an event parameter that cannot be copied: monitors must not need to copy events
+    mon = Inst(g, chart, 'id', code_hook=hook, cache_key=('c10',), tag='mon',
+               extra_context={'CS': mkCS('mon'), 'cs': [], 'LOCK': lambda: lock})
     if ('inv', 'c10') not in g.cache:       # contracts are added once per cached chart
         mon.sc.state_for(mon.cm.names[0]).invariants.append("CS(sent('note'), sent('b'))")
         g.cache[('inv', 'c10')] = True
-    twin = Inst(g, chart, 'id', sc=(mon.sc, mon.trs, mon.cm), tag='twin', extra_context={'CS': mkCS('twin'), 'cs': []})
+    twin = Inst(g, chart, 'id', sc=(mon.sc, mon.trs, mon.cm), tag='twin',
+                extra_context={'CS': mkCS('twin'), 'cs': [], 'LOCK': lambda: lock})
     cm = mon.cm
     rec_sc, fail_sc = prop_charts(g)
     heard = []        # recording callable: (view, position in monitored code log)
@@ -150,7 +154,10 @@ def harness(g, chart, level, canary=False):
     def listener(e):
         if e.name == 'delayed event sent':
             return
+        if e.name == 'step started':
+            started_with.append(list(mon.log))      # monitored code (guards included) run before this delivery
         heard.append((mview(e), code_pos()))
+    started_with = []
 
     def REC(event, time):
         recd.append((event.name, time))
@@ -235,6 +242,10 @@ def harness(g, chart, level, canary=False):
 
     def check_positions():
         """each meta-event is delivered right after the code it reports and before any later code"""
+        for seen in started_with:
+            g.prove(not seen, 'step_started_delivered_before_any_monitored_code',
+                    lambda: dict(info(), ran_before=[str(x) for x in seen]))
+        del started_with[:]
         for view, pos in heard:
             nm, d = view
             last = pos[-1] if pos else None
